@@ -34,7 +34,7 @@ def run_scenarios(ctx: Ctx, scenarios: list) -> None:
     def rec_sync() -> None:
         for sc in sync_scs:
             try:
-                sync_traces.append(c17sync.record_in_subprocess(sc['sync']['n'], sc['sync']['cb'], sc['id']))
+                sync_traces.append(c17sync.record_in_subprocess(sc['sync']['n'], sc['sync']['cb'], sc['id'], sc['sync'].get('mode', 'backlog')))
             except Exception as ex:  # noqa: BLE001
                 errs.append(ex)
     th = threading.Thread(target=rec_sync)
@@ -45,13 +45,17 @@ def run_scenarios(ctx: Ctx, scenarios: list) -> None:
         from vf.core import Machinery
         raise Machinery('sync-close recorder: %s' % errs[0])
     skipped = [sc['id'] for sc, t in zip(sync_scs, sync_traces) if t is None]
-    for sc, t in zip(sync_scs, sync_traces):
-        if t is not None:
-            scenarios = scenarios + [sc]
-            traces = traces + [t]
-    ctx.coverage['sync_close'] = {'histories': len(sync_scs) - len(skipped), 'skipped_no_real_socket': skipped,
-                                  'what': 'Zeroconf.close() from a non-loop thread while the thread-based ServiceBrowser has a backlog of '
-                                          'slow listener callbacks (real threads, real time); nothing may fire after close returned'}
+    got = [(sc, t) for sc, t in zip(sync_scs, sync_traces) if t is not None]
+    if got:
+        # real time is not exact: these traces have their own, order-only contract (spec/Trace_SyncClose.tla)
+        sv, sst, strn = trace_run.validate('Trace_SyncClose', [t for _, t in got], {'own': 'C17'}, batch=50, par=1)
+        trace_run.triage(ctx, 'C17', [sc for sc, _ in got], [t for _, t in got], sv, lambda sc, tr, clause, pos: 'sync-' + sc['sync'].get('mode', 'backlog'))
+    ctx.coverage['sync_close'] = {'histories': len(got), 'skipped_no_real_socket': skipped,
+                                  'events': sum(len(t['events']) for _, t in got),
+                                  'what': 'Zeroconf.close() from a non-loop thread (a) while the thread-based ServiceBrowser has a backlog of '
+                                          'slow listener callbacks, (b) from a coroutine of another asyncio loop with a service registered; real '
+                                          'threads, real time; Trace_SyncClose.tla: nothing fires or is sent after close returned, everything '
+                                          'announced has been withdrawn'}
     ctx.log('recorded %d traces, %d events' % (len(traces), sum(len(t['events']) for t in traces)))
     verdicts, states, trans = trace_run.validate('Trace_Responder', traces, {'own': 'C17', 'slack': 5}, batch=250, par=4)
     res = trace_run.triage(ctx, 'C17', scenarios, traces, verdicts, disc17)
@@ -92,7 +96,8 @@ def run_scenarios(ctx: Ctx, scenarios: list) -> None:
 def run(ctx: Ctx) -> None:
     rng = random.Random(ctx.seed * 7919 + 17)
     # (the backlog must outlast any bounded wait a close might be given: 6 callbacks of 2.3 s, thorough also 8 of 2.6 s)
-    sync = [{'id': 'c17-sync-0', 'sync': {'n': 6, 'cb': 2.3}}] + ([{'id': 'c17-sync-1', 'sync': {'n': 8, 'cb': 2.6}}] if ctx.thorough else [])
+    sync = [{'id': 'c17-sync-0', 'sync': {'n': 6, 'cb': 2.3}}, {'id': 'c17-sync-fl', 'sync': {'n': 0, 'cb': 0, 'mode': 'foreign-loop'}}] + (
+        [{'id': 'c17-sync-1', 'sync': {'n': 8, 'cb': 2.6}}] if ctx.thorough else [])
     run_scenarios(ctx, [rf.gen_c17(rng, 'c17-%d' % k, ctx.thorough) for k in range(ctx.pick(400, 12000))] + sync)
 
 
